@@ -59,7 +59,11 @@ class Refusals:
             var = variant_of_raw(a['first_facts'])
             det = a['detail']
             if isinstance(det, tuple):
-                try: args = tuple(N(x) for x in det[1:] if isinstance(x, tuple))
+                def _n(x):
+                    # overflow flag of a primitive checked operation (MIR assert): normalise its operands
+                    if x and x[0] == 'ovf' and len(x) == 4: return ('ovf', x[1], N(x[2]), N(x[3]))
+                    return N(x)
+                try: args = tuple(_n(x) for x in det[1:] if isinstance(x, tuple))
                 except Exception: args = ()
                 key = '%s(%s)' % (det[0], ', '.join(K(x) for x in args))
                 dterm = (det[0],) + args
@@ -116,6 +120,12 @@ def alternatives(e, table, aborts_table):
     if e['kind'] == 'err':
         yield table, e
         f = e['fact']
+        # `if a < b { return Err(..) }` before `a - b`  is the refusal of `a.checked_sub(b)?`
+        if f is not None and f[0] == 'val' and f[2] is True and isinstance(f[1], tuple) and f[1][0] == 'lt' and len(f[1]) == 3:
+            for res in ('Err', 'None'):
+                v = dict(e); v['fact'] = ('is', ('rcall', 'checked_sub', (f[1][1], f[1][2])), res); yield table, v
+            v2 = dict(e); v2['kind'] = 'abort'; v2['fact'] = None; v2['abort'] = ('uint_Sub', f[1][1], f[1][2]); v2['key'] = 'uint_Sub(%s, %s)' % (K(f[1][1]), K(f[1][2]))
+            yield aborts_table, v2
         if f is not None and f[0] == 'is' and f[2] in ('Err', 'None'):
             v = dict(e); v['kind'] = 'abort'; v['fact'] = None; v['abort'] = ('unwrap', f[1]); v['key'] = 'unwrap(%s)' % K(f[1])
             yield aborts_table, v
@@ -125,6 +135,13 @@ def alternatives(e, table, aborts_table):
     else:
         yield aborts_table, e
         a = e.get('abort')
+        # primitive `a - b` / `a + b` on u128 (MIR overflow assert) is the same refusal as Uint128's panicking operator and as checked_*()?
+        if a and a[0] == 'assert':
+            ov = next((x for x in a[1:] if isinstance(x, tuple) and x and x[0] == 'ovf' and len(x) == 4 and x[1] in ('Sub', 'Add')), None)
+            if ov is not None:
+                v0 = dict(e); v0['abort'] = ('uint_' + ov[1], ov[2], ov[3]); v0['key'] = '%s(%s)' % (v0['abort'][0], ', '.join(K(x) for x in ov[2:]))
+                yield aborts_table, v0
+                a = v0['abort']; e = v0
         if a and a[0] == 'unwrap' and len(a) > 1:
             for res in ('Err', 'None'):
                 v = dict(e); v['kind'] = 'err'; v['fact'] = ('is', a[1], res)
@@ -156,6 +173,9 @@ def check_table(eng, prop, refs, variant, table, aborts_table, what):
         a = e.get('abort')
         if a and a[0] == 'unwrap' and len(a) > 1 and isinstance(a[1], tuple) and a[1][0] == 'rcall' and a[1][1] == 'checked_sub' and len(a[1][2]) == 2:
             a = ('uint_Sub', a[1][2][0], a[1][2][1])
+        if a and a[0] == 'assert':
+            ov = next((x for x in a[1:] if isinstance(x, tuple) and x and x[0] == 'ovf' and len(x) == 4 and x[1] == 'Sub'), None)
+            if ov is not None: a = ('uint_Sub', ov[2], ov[3])
         if a and a[0] in ('uint_Sub',) and len(a) == 3:
             if a[2] == ('int', 0): return True
             try:
@@ -182,3 +202,12 @@ if __name__ == '__main__':
     for (v, kind, key), e in sorted(R.entries.items(), key=lambda x: (str(x[0][0]), x[1]['site'] or '')):
         if var and v != var: continue
         print('%-14s %-6s %5d %-26s %s%s' % (v, kind, e['count'], short_site(e['site']), key[:230], '  [after write]' if e.get('writes') else ''))
+
+
+def is_increment_zero(e):
+    """abort of the lot-multiple test on a zero divisor: the primitive `%` (MIR assert) or Uint128's `%` / `/` operator, divisor = the configured size increment"""
+    a = e.get('abort')
+    if not a: return False
+    if a[0] == 'assert': return 'size_increment' in e['key']
+    if a[0] in ('uint_Rem', 'uint_Div') and len(a) == 3: return a[2] == F(CFG, 'size_increment')
+    return False
